@@ -40,6 +40,7 @@ def main():
     ap.add_argument("--demo", action="store_true")
     ap.add_argument("--pkgtests", action="store_true", help="run the existing tests of the touched packages with the patch and compare with BASELINE.json")
     ap.add_argument("--nocheck", action="store_true", help="only confirm the seeded change (demo / package tests), do not run the checks")
+    ap.add_argument("--ref", default="HEAD", help="git ref of /repo the scratch worktree is created from")
     ap.add_argument("--props", default=None, help="comma list of property ids to run (default: meta.json property)")
     a = ap.parse_args()
     d = os.path.abspath(a.dir)
@@ -47,7 +48,7 @@ def main():
     props = a.props.split(",") if a.props else [meta["property"]]
     wt = tempfile.mkdtemp(prefix="seedwt-")
     os.rmdir(wt)
-    rc, out = sh("git -C /repo worktree add -q --detach %s HEAD" % wt)
+    rc, out = sh("git -C /repo worktree add -q --detach %s %s" % (wt, a.ref))
     if rc != 0:
         print(out)
         sys.exit(2)
@@ -57,7 +58,8 @@ def main():
             pkg = meta.get("demo_pkg") or demo_pkg(os.path.join(d, "demo_test.go"))
             dst = os.path.join(wt, pkg, "zz_seed_demo_test.go")
             shutil.copy(os.path.join(d, "demo_test.go"), dst)
-            run = meta.get("demo_run", ".")
+            names = re.findall(r"^func (Test\w+)\(", open(os.path.join(d, "demo_test.go")).read(), re.M)
+            run = meta.get("demo_run") or ("^(" + "|".join(names) + ")$" if names else ".")
             rc0, o0 = sh("go test -vet=off -count=1 -run '%s' ./%s/" % (run, pkg), cwd=wt)
             res["demo_without_patch"] = "pass" if rc0 == 0 else "FAIL"
         rc, out = sh("git apply --whitespace=nowarn %s" % os.path.join(d, "patch.diff"), cwd=wt)
